@@ -355,8 +355,14 @@ func (s *State) EvalOptions(parsed *hclparse.Parser, v any, opts *EvalOptions) e
 	if ctx.Variables == nil {
 		ctx.Variables = make(map[string]cty.Value)
 	}
-	for name, file := range files {
+	for name := range files {
 		fileNames = append(fileNames, name)
+	}
+	// Files are evaluated in the order of their names: values defined in one file (e.g.,
+	// locals) are used by the next ones, and a map yields its files in a random order.
+	sort.Strings(fileNames)
+	for _, name := range fileNames {
+		file := files[name]
 		if err := s.setInputVals(ctx, file.Body, opts.Variables); err != nil {
 			return err
 		}
@@ -420,9 +426,6 @@ func (s *State) EvalOptions(parsed *hclparse.Parser, v any, opts *EvalOptions) e
 		}
 	}
 	spec := &Resource{}
-	sort.Slice(fileNames, func(i, j int) bool {
-		return fileNames[i] < fileNames[j]
-	})
 	var vr SchemaValidator
 	switch {
 	case opts.Validator != nil:
